@@ -16,7 +16,14 @@ typedef unsigned long ulong;
 
 /* operator new never returns NULL (it throws) */
 static inline void *cxx_new(size_t n) { void *p = malloc(n); __CPROVER_assume(p != 0); return p; }
+#ifdef NEW_ARRAY_CAP
+/* bounded harnesses whose allocation sizes are computed from symbolic data: every new[] gets NEW_ARRAY_CAP elements
+ * (asserted to be enough).  Keeps object sizes concrete; overflows inside the slack are NOT detected by such an
+ * obligation (it is labelled so), functional results are. */
+static inline void *cxx_new_array(size_t esz, size_t n) { __CPROVER_assert(n <= NEW_ARRAY_CAP, "new[] request within the harness cap"); void *p = malloc(esz * NEW_ARRAY_CAP); __CPROVER_assume(p != 0); return p; }
+#else
 static inline void *cxx_new_array(size_t esz, size_t n) { void *p = malloc(esz * n); __CPROVER_assume(p != 0); return p; }
+#endif
 static inline void *cxx_new_array_zero(size_t esz, size_t n) { void *p = calloc(n, esz); __CPROVER_assume(p != 0); return p; }
 static inline void cxx_delete_array(void *p) { free(p); }
 static inline void cxx_delete(void *p) { free(p); }
